@@ -6,7 +6,7 @@ import (
 	"fmt"
 	"io"
 	"os"
-	"runtime"
+	"runtime/metrics"
 	"strings"
 	"testing"
 
@@ -70,11 +70,14 @@ func genMalformed(t *rapid.T) []byte {
 
 // measured runs f and returns the bytes allocated meanwhile (the test is single-threaded).
 func measured(f func()) uint64 {
-	var a, b runtime.MemStats
-	runtime.ReadMemStats(&a)
+	// runtime/metrics needs no stop-the-world (ReadMemStats costs ~50 us, too slow for native
+	// fuzzing); small objects are accounted when their span is refilled, which the 1 MiB slack absorbs
+	s := []metrics.Sample{{Name: "/gc/heap/allocs:bytes"}}
+	metrics.Read(s)
+	a := s[0].Value.Uint64()
 	f()
-	runtime.ReadMemStats(&b)
-	return b.TotalAlloc - a.TotalAlloc
+	metrics.Read(s)
+	return s[0].Value.Uint64() - a
 }
 
 const allocSlackC13 = 1 << 20
